@@ -744,6 +744,11 @@ func (u *Ufs) Wstat(req *SrvReq) {
 			destpath = filepath.Join(fiddir, dir.Name)
 			fmt.Printf("rel  results in %s\n", destpath)
 		}
+		// nothing moves out of the root (renaming the root itself would)
+		if !u.inRoot(destpath) {
+			req.RespondError(&Error{"rename outside the exported root", EPERM})
+			return
+		}
 		err := syscall.Rename(fid.path, destpath)
 		fmt.Printf("rename %s to %s gets %v\n", fid.path, destpath, err)
 		if err != nil {
